@@ -878,7 +878,7 @@ func main() {
 	o.DeclareSuite("flowproc", "From Verif Require Import C17.Model.", "case_flowproc", "run_flowproc")
 	o.DeclareSuite("flowengine", "From Verif Require Import C17.Model.", "case_flowengine", "run_flowengine")
 	o.DeclareSuite("flowbody", "From Verif Require Import C17.Model.", "case_flowproc", "run_flowproc")
-	o.DeclareSuite("dispatch", "From Verif Require Import C17.Model.", "case_policy", "run_policy")
+	o.DeclareSuite("dispatch", "From Verif Require Import C17.Model C17.Ident.", "case_dispatch", "run_dispatch")
 	o.Rule("policy: every response string (first/later x retryable/not) of one sequence up to a length bound x attempts -1..4, " +
 		"then random histories of 3 interleaved sequences with clock steps around the ttl and sleeper firings; " +
 		"flowproc: every event string of 2 sequences on one processor up to a bound x attempts -1..4, then random histories on " +
@@ -887,7 +887,7 @@ func main() {
 		"decodable and undecodable bodies (9 kinds), every string of 2 sequences up to a bound per kind, then random mixes; " +
 		"dispatch: requests through runner.DispatchOnRequest/DispatchOnResponse with a retry remedy and a fixed-response / " +
 		"throttling remedy answering inside the retry conditions: attempts+2.. consecutive gateway-made responses of 1-3 " +
-		"round-robin sequences, then random mixes of early and provider responses; patient (all suites): attempts 255, 256, 300, 1000 " +
+		"round-robin sequences, then random mixes of early and provider responses; the cases are RAW transactions (id, sequence id header absent / naming itself / naming a call, early flag) and the model derives which sequence is charged; patient (all suites): attempts 255, 256, 300, 1000 " +
 		"with cool-down 0 and one call (or two interleaved) that keeps failing past attempts+1 responses, then the id reused; distinct = distinct (settings, history, observed answers); non-trivial = flows: some round ended " +
 		"with failed (flowbody: and responses of another sequence lay between those of the call); dispatch: a sequence got more " +
 		"gateway-made retryable responses than attempts and both answers occurred; policy: at least one retry and at least one retryable response answered noop")
